@@ -42,6 +42,16 @@ func init() {
 	add("C17", "C17.transporterr (the transport carries a handler's refusal to the requester: handleCommand sends Error() whenever the response has an error, decodeResponse turns a non-empty error string into a non-nil error).", as(transportErrRule, "C17.transporterr"))
 	add("C13", "C13.restored (a fast-forwarding node starts babbling only after the application accepted the snapshot), C13.snapshot (a responder ships the snapshot taken at the anchor block it ships).", as(restoredRule, "C13.restored"), as(snapshotRule, "C13.snapshot"))
 	add("C13", "C13.undecided (after a reset the round-received search steps over undecided rounds at or below the lower bound and stops at the first one above it; shared with C01.undecided).", as(undecidedSkipRule, "C13.undecided"))
+	add("C11", "C11.dbkept (the engine moves an existing database aside only when it was NOT asked to bootstrap from it), C11.genesis (the hashgraph is initialised with the genesis peer set read from peers.genesis.json — the current peers file only when that cannot be read: a replay from another genesis set computes other rounds; shared with C10.genesis).", as(dbKeptRule, "C11.dbkept"), as(genesisRule, "C11.genesis"))
+	add("C10", "C10.genesis (see C11.genesis), C10.canonkey (Peer.PubKeyString is the upper-cased PubKeyHex: the one spelling every by-key map of the module is indexed with).", as(genesisRule, "C10.genesis"), as(canonKeyRule, "C10.canonkey"))
+	add("C17", "C17.maintenance (Node.Init in maintenance mode makes exactly one transition, to Suspended).", as(maintenanceRule, "C17.maintenance"))
+	add("C03", "C03.recorded (what DivideRounds records for an event IS what the consensus functions computed: SetRound <- round(x), AddCreatedEvent(x, w) with w <- witness(x), SetLamportTimestamp <- lamportTimestamp(x), the round record keyed by that round — nothing adjusts them by process-local state such as the last consensus round at the moment the event arrived; shared with C01.recorded / C13.recorded).", as(recordedRule, "C03.recorded"))
+	add("C01", "C01.recorded (see C03.recorded: the recorded witness flag is hashed into every frame).", as(recordedRule, "C01.recorded"))
+	add("C13", "C13.recorded (see C03.recorded).", as(recordedRule, "C13.recorded"))
+	add("C16", "C16.window (the rolling index addresses its window exactly: as linear forms over (argument, lastIndex, len(items)), Get slices from skip - lastIndex + len(items), GetItem and the in-place Set index at index - lastIndex + len(items) - 1 — the item of index i sits at position i - oldest with oldest = lastIndex - len + 1; shared with C17.window).", as(windowRule, "C16.window"))
+	add("C17", "C17.window (see C16.window: a peer is served the events with index > its known index, none twice, none skipped).", as(windowRule, "C17.window"))
+	add("C08", "C08.heads (core.sync records as a peer's head — the other-parent of the next self-event — only an event whose insertion returned nil: a refused event, e.g. a signed fork, kept as head makes every later self-event fail with 'other-parent not known' and the node stops answering valid syncs; shared with C07.heads).", as(headsRule, "C08.heads"))
+	add("C07", "C07.heads (see C08.heads: a rejected event leaves no trace in the state the node builds events from).", as(headsRule, "C07.heads"))
 	add("C05", "C05.accept (every transaction received on the submit channel is added to the pool, whatever the state of the node).", as(acceptRule, "C05.accept"))
 }
 
@@ -367,6 +377,8 @@ func sameArgsRule(p *Prog, r *Report, rule string) {
 						}
 						if !isSkipPlus1(e) {
 							okAllKeys = false
+						} else {
+							okStart = true
 						}
 					}
 				}
@@ -786,8 +798,13 @@ func transportErrRule(p *Prog, r *Report, rule string) {
 			}
 			m++
 			bad := ""
-			seen := map[*ssa.BasicBlock]bool{}
-			stack := []*ssa.BasicBlock{s}
+			// path state: the value most recently stored into a spilled (named) error result
+			type pst struct {
+				b    *ssa.BasicBlock
+				last ssa.Value
+			}
+			seen := map[pst]bool{}
+			stack := []pst{{s, nil}}
 			for len(stack) > 0 {
 				z := stack[len(stack)-1]
 				stack = stack[:len(stack)-1]
@@ -795,14 +812,29 @@ func transportErrRule(p *Prog, r *Report, rule string) {
 					continue
 				}
 				seen[z] = true
-				if ret, isRet := z.Instrs[len(z.Instrs)-1].(*ssa.Return); isRet {
+				last := z.last
+				for _, in := range z.b.Instrs {
+					if st, isSt := in.(*ssa.Store); isSt {
+						if al, isAl := st.Addr.(*ssa.Alloc); isAl && isErrorType(al.Type().(*types.Pointer).Elem()) {
+							last = st.Val
+						}
+					}
+				}
+				if ret, isRet := z.b.Instrs[len(z.b.Instrs)-1].(*ssa.Return); isRet {
 					e := ret.Results[len(ret.Results)-1]
+					if u, isLoad := e.(*ssa.UnOp); isLoad && u.Op == token.MUL && last != nil {
+						if _, fromAlloc := u.X.(*ssa.Alloc); fromAlloc {
+							e = last
+						}
+					}
 					if isNilConst(e) || !neverNilErr(e, 2) {
 						bad = p.ipos(ret)
 					}
 					continue
 				}
-				stack = append(stack, z.Succs...)
+				for _, nx := range z.b.Succs {
+					stack = append(stack, pst{nx, last})
+				}
 			}
 			r.Check(bad == "", rule, "decodeResponse:remote-error-returned", p.ipos(b.Instrs[len(b.Instrs)-1]), fnName(dr), "a remote error becomes a local error", "decodeResponse can return a nil error at "+bad+" although the remote side sent an error string")
 		}
@@ -881,5 +913,376 @@ func snapshotRule(p *Prog, r *Report, rule string) {
 	}
 	if n == 0 {
 		r.Fail(rule, "processFastForwardRequest:GetSnapshot", p.pos(fn.Pos()), fnName(fn), "no snapshot requested")
+	}
+}
+
+/* ---------- C11.dbkept / C11.genesis / C10.canonkey / C17.maintenance ---------- */
+
+func dbKeptRule(p *Prog, r *Report, rule string) {
+	r.Rule(rule, 1, "Babble.initStore: os.Rename / os.RemoveAll of the database directory is reached only under Config.Bootstrap == false")
+	fn := p.Func("src/babble", "Babble", "initStore")
+	if fn == nil {
+		r.Anchor(rule, "babble.(*Babble).initStore")
+		return
+	}
+	qNoBoot := func(l Lit) bool { return !l.Pos && flowsFromField(l.V, "Bootstrap") }
+	n := 0
+	for _, c := range callsIn(fn, named("os.Rename", "os.RemoveAll", "os.Remove")) {
+		n++
+		g, _ := p.allPaths(c, []Pred{qNoBoot}, all(1))
+		r.Check(g, rule, "initStore:"+calleeFunc(c.Common()).Name()+":only-without-bootstrap", p.ipos(c), fnName(fn), "the database is set aside only for a fresh start",
+			"the existing database can be moved / removed although Config.Bootstrap is set: the node restarts on an empty store, re-delivers nothing and forks its own chain at height 0")
+	}
+	if n == 0 {
+		r.Ok(rule, "initStore:no-removal", p.pos(fn.Pos()), fnName(fn), "initStore never moves or removes the database")
+	}
+	// the store opened is a BadgerStore on Config.DatabaseDir
+	opened := false
+	for _, c := range callsIn(fn, named(HG+".NewBadgerStore")) {
+		if flowsFromField(argN(c, 1), "DatabaseDir") {
+			opened = true
+		}
+	}
+	r.Check(opened, rule, "initStore:opens-DatabaseDir", p.pos(fn.Pos()), fnName(fn), "the persistent store is opened on Config.DatabaseDir", "initStore does not open the BadgerStore on Config.DatabaseDir")
+}
+
+func genesisRule(p *Prog, r *Report, rule string) {
+	r.Rule(rule, 3, "Babble.initPeers: GenesisPeers is the set read through NewJSONPeerSet(dir, false) when that succeeded, the current set only on its error path; Babble.initNode hands GenesisPeers to NewNode as genesis set; newCore initialises the hashgraph with its genesisPeers parameter")
+	ip := p.Func("src/babble", "Babble", "initPeers")
+	nc := p.Func(NODE, "", "newCore")
+	if ip == nil || nc == nil {
+		r.Anchor(rule, "babble.(*Babble).initPeers / node.newCore")
+		return
+	}
+	fG := p.Field("src/babble", "Babble", "GenesisPeers")
+	if fG == nil {
+		r.Anchor(rule, "babble.Babble.GenesisPeers")
+		return
+	}
+	// which PeerSet() call reads the genesis file: receiver from NewJSONPeerSet(_, false)
+	isGenesisRead := func(x ssa.Value) bool {
+		c, idx, ok := isCallTo(x, named(PEER+".JSONPeerSet.PeerSet"))
+		if !ok || idx != 0 {
+			return false
+		}
+		return dependsOn(recvOf(c), func(y ssa.Value) bool {
+			cc, _, okc := isCallTo(y, named(PEER+".NewJSONPeerSet"))
+			if !okc {
+				return false
+			}
+			k, isC := argN(cc, 1).(*ssa.Const)
+			return isC && k.Value != nil && k.Value.String() == "false"
+		})
+	}
+	qGenOK := func(l Lit) bool {
+		v, isNil, ok := nilTest(l)
+		if !ok || !isNil {
+			return false
+		}
+		c, idx := callOf(v)
+		if c == nil || idx != 1 {
+			return false
+		}
+		for _, ref := range *c.Referrers() {
+			if e, isE := ref.(*ssa.Extract); isE && e.Index == 0 && isGenesisRead(e) {
+				return true
+			}
+		}
+		return false
+	}
+	sts := storesToField(ip, fG)
+	some := false
+	for i, st := range sts {
+		if flowsFromLocal(st.Val, isGenesisRead) {
+			some = true
+			r.Ok(rule, fmt.Sprintf("initPeers:GenesisPeers#%d", i), p.ipos(st), fnName(ip), "the set read from the genesis file")
+			continue
+		}
+		// any other value only where reading the genesis file failed
+		g, _ := p.allPaths(st, []Pred{qGenOK}, func(m uint32) bool { return m == 0 })
+		nf := true
+		for _, l := range p.Facts(ip).At(st.Block()) {
+			if qGenOK(Lit{V: l.V, Pos: !l.Pos, Nil: l.Nil}) {
+				nf = false
+			}
+		}
+		r.Check(g && !nf, rule, fmt.Sprintf("initPeers:GenesisPeers#%d", i), p.ipos(st), fnName(ip), "fallback only when the genesis file cannot be read",
+			"GenesisPeers receives a set that was not read from peers.genesis.json on a path on which that file was read successfully: after a membership change the node would initialise (and, on restart, replay) its hashgraph from another round-0 set than the rest of the network")
+	}
+	if len(sts) == 0 || !some {
+		r.Fail(rule, "initPeers:GenesisPeers", p.pos(ip.Pos()), fnName(ip), "GenesisPeers never receives the set read from the genesis file")
+	}
+	// newCore: Init(genesisPeers)
+	var gp ssa.Value
+	for _, pv := range nc.Params {
+		if pv.Name() == "genesisPeers" {
+			gp = pv
+		}
+	}
+	if gp == nil && len(nc.Params) > 2 {
+		gp = nc.Params[2]
+	}
+	n := 0
+	for _, c := range callsIn(nc, named(HG+".Hashgraph.Init")) {
+		n++
+		r.Check(flowsFromLocal(argN(c, 0), func(x ssa.Value) bool { return x == gp }), rule, "newCore:Init(genesisPeers)", p.ipos(c), fnName(nc), "round 0 is the genesis set", "newCore initialises the hashgraph with another set than its genesisPeers parameter")
+	}
+	if n == 0 {
+		r.Fail(rule, "newCore:Init", p.pos(nc.Pos()), fnName(nc), "newCore does not initialise the hashgraph")
+	}
+	// initNode: NewNode(..., b.Peers, b.GenesisPeers, ...)
+	in := p.Func("src/babble", "Babble", "initNode")
+	if in == nil {
+		r.Anchor(rule, "babble.(*Babble).initNode")
+		return
+	}
+	for _, c := range callsIn(in, named(NODE+".NewNode")) {
+		args := c.Common().Args
+		ok := len(args) > 3 && flowsFromField(args[2], "Peers") && flowsFromField(args[3], "GenesisPeers")
+		r.Check(ok, rule, "initNode:NewNode(peers, genesisPeers)", p.ipos(c), fnName(in), "current and genesis sets handed over in that order", "NewNode does not receive (Babble.Peers, Babble.GenesisPeers) as its current / genesis peer sets")
+	}
+}
+
+func canonKeyRule(p *Prog, r *Report, rule string) {
+	r.Rule(rule, 1, "Peer.PubKeyString returns strings.ToUpper(p.PubKeyHex)")
+	fn := p.Func(PEER, "Peer", "PubKeyString")
+	if fn == nil {
+		r.Anchor(rule, "peers.(*Peer).PubKeyString")
+		return
+	}
+	ok, n := true, 0
+	for _, b := range fn.Blocks {
+		ret, isRet := b.Instrs[len(b.Instrs)-1].(*ssa.Return)
+		if !isRet {
+			continue
+		}
+		n++
+		if !allSources(ret.Results[0], func(x ssa.Value) bool {
+			c, _, okc := isCallTo(x, named("strings.ToUpper"))
+			return okc && flowsFromField(c.Call.Args[0], "PubKeyHex")
+		}) {
+			ok = false
+		}
+	}
+	r.Check(ok && n > 0, rule, "Peer.PubKeyString:upper-case", p.pos(fn.Pos()), fnName(fn), "one canonical spelling of a key", "PubKeyString is not strings.ToUpper(PubKeyHex): ByPubKey, the repertoire and the participant caches are indexed with it while Event.Creator() / ValidatorHex() produce upper-case hex — a peers file written in lower case would make every membership test fail")
+}
+
+func maintenanceRule(p *Prog, r *Report, rule string) {
+	r.Rule(rule, 1, "Node.Init: every state change other than transition(Suspended) requires Config.MaintenanceMode == false; in maintenance mode transition(Suspended) is reached")
+	fn := p.Func(NODE, "Node", "Init")
+	if fn == nil {
+		r.Anchor(rule, "node.(*Node).Init")
+		return
+	}
+	states, _ := stateConsts(p)
+	qNotMaint := func(l Lit) bool { return !l.Pos && flowsFromField(l.V, "MaintenanceMode") }
+	qMaint := func(l Lit) bool { return l.Pos && flowsFromField(l.V, "MaintenanceMode") }
+	n, susp := 0, false
+	for _, c := range callsIn(fn, named(NODE+".Node.transition", NODE+".Node.setBabblingOrCatchingUpState", NODE+".Node.SetState")) {
+		n++
+		if k, ok := intConst(argN(c, 0)); ok && calleeFunc(c.Common()).Name() != "setBabblingOrCatchingUpState" && k == states["Suspended"] {
+			if g, _ := p.allPaths(c, []Pred{qMaint}, all(1)); g {
+				susp = true
+			}
+			continue
+		}
+		g, _ := p.allPaths(c, []Pred{qNotMaint}, all(1))
+		r.Check(g, rule, "Init:"+calleeFunc(c.Common()).Name()+":not-in-maintenance-mode", p.ipos(c), fnName(fn), "only outside maintenance mode", "Node.Init can leave a node that was started in maintenance mode in a state other than Suspended: it would gossip / create events on a store that is not being written")
+	}
+	r.Check(susp && n > 0, rule, "Init:maintenance-mode-suspends", p.pos(fn.Pos()), fnName(fn), "maintenance mode => Suspended", "Node.Init does not transition to Suspended under Config.MaintenanceMode")
+	// go n.trans.Listen() only outside maintenance mode (the transport is nil there)
+	for _, b := range fn.Blocks {
+		for _, in := range b.Instrs {
+			if g, ok := in.(*ssa.Go); ok {
+				ok2, _ := p.allPaths(g, []Pred{qNotMaint}, all(1))
+				r.Check(ok2, rule, "Init:go-Listen:not-in-maintenance-mode", p.ipos(g), fnName(fn), "", "a goroutine is started by Init in maintenance mode")
+			}
+		}
+	}
+}
+
+/* ---------- C03.recorded ---------- */
+
+func recordedRule(p *Prog, r *Report, rule string) {
+	r.Rule(rule, 4, "DivideRounds: Event.SetRound(round(x)), RoundInfo.AddCreatedEvent(x, witness(x)), Event.SetLamportTimestamp(lamportTimestamp(x)), Store.SetRound(round(x), …) — each recorded value has the consensus function's result as its only source")
+	fn := p.Func(HG, "Hashgraph", "DivideRounds")
+	if fn == nil {
+		r.Anchor(rule, "hashgraph.(*Hashgraph).DivideRounds")
+		return
+	}
+	from := func(name string) func(ssa.Value) bool {
+		m := named(HG + ".Hashgraph." + name)
+		return func(x ssa.Value) bool { _, idx, ok := isCallTo(x, m); return ok && idx == 0 }
+	}
+	specs := []struct {
+		callee fnMatch
+		what   string
+		arg    int
+		src    string
+	}{
+		{named(HG + ".Event.SetRound"), "Event.SetRound", 0, "round"},
+		{named(HG + ".RoundInfo.AddCreatedEvent"), "RoundInfo.AddCreatedEvent(witness)", 1, "witness"},
+		{named(HG + ".Event.SetLamportTimestamp"), "Event.SetLamportTimestamp", 0, "lamportTimestamp"},
+		{storeM("SetRound"), "Store.SetRound(round)", 0, "round"},
+	}
+	for _, sp := range specs {
+		cs := callsIn(fn, sp.callee)
+		if len(cs) == 0 {
+			r.Fail(rule, "DivideRounds:"+sp.what, p.pos(fn.Pos()), fnName(fn), "DivideRounds no longer records this value")
+			continue
+		}
+		for i, c := range cs {
+			a := argN(c, sp.arg)
+			ok := a != nil && allSources(a, from(sp.src))
+			r.Check(ok, rule, fmt.Sprintf("DivideRounds:%s#%d", sp.what, i), p.ipos(c), fnName(fn), "<- "+sp.src+"(x)",
+				"the value recorded by "+sp.what+" is not (on every path) the result of h."+sp.src+"(x): it can be changed by something else — e.g. by how far this node's consensus had advanced when the event arrived — so two nodes holding the same DAG record different rounds / witness flags / timestamps, and the recorded values are hashed into every frame")
+		}
+	}
+}
+
+/* ---------- C16.window ---------- */
+
+// windowRule decides the index arithmetic of common.RollingIndex as an identity between linear forms
+// (the prover of C08.range shows that the accesses stay in bounds; this rule shows they hit the RIGHT
+// element). Roles: arg = the method's int parameter, last = r.lastIndex, n = len(r.items).
+func windowRule(p *Prog, r *Report, rule string) {
+	r.Rule(rule, 3, "RollingIndex.Get: items[arg - last + n :]; GetItem: items[arg - last + n - 1]; Set (replace): items[arg - last + n - 1] = item")
+	type want struct {
+		fn    string
+		what  string
+		konst int64
+	}
+	for _, w := range []want{{"Get", "slice-low", 0}, {"GetItem", "index", -1}, {"Set", "index", -1}} {
+		fn := p.Func("src/common", "RollingIndex", w.fn)
+		if fn == nil {
+			r.Anchor(rule, "common.(*RollingIndex)."+w.fn)
+			continue
+		}
+		var argName string
+		for _, pv := range fn.Params[1:] {
+			if b, ok := pv.Type().Underlying().(*types.Basic); ok && b.Info()&types.IsInteger != 0 {
+				argName = pv.Name()
+			}
+		}
+		n := 0
+		for _, b := range fn.Blocks {
+			for _, in := range b.Instrs {
+				var idx ssa.Value
+				switch x := in.(type) {
+				case *ssa.Slice:
+					if w.what == "slice-low" && flowsFromField(x.X, "items") && x.Low != nil {
+						idx = x.Low
+					}
+				case *ssa.IndexAddr:
+					if w.what == "index" && flowsFromField(x.X, "items") {
+						idx = x.Index
+					}
+				}
+				if idx == nil {
+					continue
+				}
+				n++
+				e := newLinEnv()
+				lf := e.toLin(idx, 0)
+				ok := true
+				got := map[string]int64{}
+				for name, c := range lf.c {
+					if c.Sign() == 0 {
+						continue
+					}
+					if !c.IsInt() {
+						ok = false
+						continue
+					}
+					k := c.Num().Int64()
+					switch {
+					case name == argName:
+						got["arg"] += k
+					case len(name) > 11 && name[:11] == ".lastIndex@":
+						got["last"] += k
+					case len(name) > 11 && name[:11] == "len(.items@":
+						got["n"] += k
+					default:
+						ok = false
+					}
+				}
+				if !lf.k.IsInt() || lf.k.Num().Int64() != w.konst {
+					ok = false
+				}
+				if got["arg"] != 1 || got["last"] != -1 || got["n"] != 1 {
+					ok = false
+				}
+				expect := "arg - last + n"
+				if w.konst != 0 {
+					expect += fmt.Sprintf(" %+d", w.konst)
+				}
+				r.Check(ok, rule, fmt.Sprintf("RollingIndex.%s:%s#%d", w.fn, w.what, n), p.ipos(in), fnName(fn), "position = "+expect,
+					"the position computed is "+lf.String()+", not "+expect+" (arg = the index argument, last = lastIndex, n = len(items)): the window is addressed one off — Get would serve the peer an event it already has or skip one it lacks, GetItem / Set would read or overwrite a neighbour's slot")
+			}
+		}
+		if n == 0 {
+			r.Fail(rule, "RollingIndex."+w.fn+":"+w.what, p.pos(fn.Pos()), fnName(fn), "no access to r.items found")
+		}
+	}
+}
+
+/* ---------- C08.heads ---------- */
+
+func headsRule(p *Prog, r *Report, rule string) {
+	r.Rule(rule, 1, "core.sync: every non-nil value that can reach core.heads[...] is an event for which insertEventAndRunConsensus returned nil on the path that selected it")
+	fn := p.Func(NODE, "core", "sync")
+	if fn == nil {
+		r.Anchor(rule, "node.(*core).sync")
+		return
+	}
+	insM := named(NODE+".core.insertEventAndRunConsensus", HG+".Hashgraph.InsertEventAndRunConsensus", HG+".Hashgraph.InsertEvent")
+	qIns := p.lift(func(l Lit) bool { _, ok := errNilLit(l, insM); return ok }, 1)
+	n := 0
+	for _, b := range fn.Blocks {
+		for _, in := range b.Instrs {
+			mu, ok := in.(*ssa.MapUpdate)
+			if !ok || !flowsFromField(mu.Map, "heads") {
+				continue
+			}
+			n++
+			bad := ""
+			seen := map[ssa.Value]bool{}
+			var walk func(v ssa.Value, at ssa.Instruction, pred, blk *ssa.BasicBlock)
+			walk = func(v ssa.Value, at ssa.Instruction, pred, blk *ssa.BasicBlock) {
+				v = unwrap(v)
+				if isNilConst(v) || bad != "" {
+					return
+				}
+				if ph, isPhi := v.(*ssa.Phi); isPhi {
+					if seen[ph] {
+						return
+					}
+					seen[ph] = true
+					for i, e := range ph.Edges {
+						walk(e, nil, ph.Block().Preds[i], ph.Block())
+					}
+					return
+				}
+				// a concrete event: inserted successfully on every path that brings it here
+				var g bool
+				if pred != nil {
+					g, _ = p.allPathsEdge(pred, blk, []Pred{qIns}, all(1))
+				} else {
+					g, _ = p.allPaths(at, []Pred{qIns}, all(1))
+				}
+				if !g {
+					bad = v.Name()
+					if vi, isIn := v.(ssa.Instruction); isIn {
+						bad = p.ipos(vi)
+					}
+				}
+			}
+			walk(mu.Value, mu, nil, nil)
+			r.Check(bad == "", rule, fmt.Sprintf("sync:heads-entry#%d", n), p.ipos(mu), fnName(fn), "only inserted events become heads",
+				"an event (from "+bad+") can be recorded in core.heads although its insertion did not return nil: the next self-event names it as other-parent, is refused ('Other-parent not known'), the head is never cleared, and from then on every sync that makes the node record its heads fails — one signed fork from a Byzantine validator stops the node")
+		}
+	}
+	if n == 0 {
+		r.Fail(rule, "sync:heads", p.pos(fn.Pos()), fnName(fn), "core.sync does not record heads")
 	}
 }
